@@ -14,28 +14,61 @@ theorem one_parser :
 /-- single non-batch message bare, anything else an array -/
 theorem toJSON_single (n : Int) (b : Bool) : Funcs.toJSONSingle n b = (n == 1 && !b) := rfl
 
-private theorem fb_cond (u : UInt8) :
-    ((((u.toNat : Int)) != 91) && (((u.toNat : Int)) != 123)) = (u != 91 && u != 123) := by
-  have h1 : ((u.toNat : Int) != 91) = (u != 91) := by
-    have : ((u.toNat : Int) = 91) ↔ u = 91 := by
-      rw [← UInt8.toNat_inj]; simp; omega
-    simp only [bne]; congr 1; rw [Bool.eq_iff_iff]; simpa using this
-  have h2 : ((u.toNat : Int) != 123) = (u != 123) := by
-    have : ((u.toNat : Int) = 123) ↔ u = 123 := by
-      rw [← UInt8.toNat_inj]; simp; omega
-    simp only [bne]; congr 1; rw [Bool.eq_iff_iff]; simpa using this
-  rw [h1, h2]
+private theorem fb_iff (u : UInt8) (k : Nat) (hk : k < 256) : ((u.toNat : Int) = (k : Int)) ↔ u = k.toUInt8 := by
+  rw [← UInt8.toNat_inj]; simp [Nat.mod_eq_of_lt hk]; omega
+
+private theorem fb_eq (u : UInt8) (k : Nat) (hk : k < 256) : ((u.toNat : Int) == (k : Int)) = (u == k.toUInt8) := by
+  rw [Bool.eq_iff_iff]; simpa using fb_iff u k hk
+
+/-- the shape-independent core: whatever way the source spells the test on the first byte (`!=`
+chain, `==` chain, switch), the decision is the model's -/
+private theorem decide_by_cases (b : List UInt8) (f : List UInt8 → (List UInt8 → Int) → Jrpc.GoPrelude.ParamsDecision)
+    (hnull : Jrpc.Wire.isNull b = true → f b (fun x => ((Jrpc.Json.firstByte x).toNat : Int)) = .leaveOut)
+    (hkeep : Jrpc.Wire.isNull b = false → (Jrpc.Json.firstByte b = 91 ∨ Jrpc.Json.firstByte b = 123) →
+      f b (fun x => ((Jrpc.Json.firstByte x).toNat : Int)) = .keep b)
+    (hrefuse : Jrpc.Wire.isNull b = false → Jrpc.Json.firstByte b ≠ 91 → Jrpc.Json.firstByte b ≠ 123 →
+      f b (fun x => ((Jrpc.Json.firstByte x).toNat : Int)) = .refuse) :
+    f b (fun x => ((Jrpc.Json.firstByte x).toNat : Int)) = Jrpc.Wire.outParams b := by
+  unfold Jrpc.Wire.outParams
+  cases hn : Jrpc.Wire.isNull b with
+  | true => simp [hnull hn]
+  | false =>
+    by_cases h91 : Jrpc.Json.firstByte b = 91
+    · simp [hkeep hn (Or.inl h91), h91]
+    · by_cases h123 : Jrpc.Json.firstByte b = 123
+      · simp [hkeep hn (Or.inr h123), h123]
+      · simp [hrefuse hn h91 h123, h91, h123]
 
 /-- `Client.marshalParams`, after `json.Marshal`: null → member omitted, array/object → sent, else refused -/
 theorem marshalParams_tail (b : List UInt8) :
     Funcs.marshalParamsTail b (fun x => ((Jrpc.Json.firstByte x).toNat : Int)) = Jrpc.Wire.outParams b := by
-  unfold Funcs.marshalParamsTail Jrpc.Wire.outParams
-  rw [Jrpc.Tie.C02.isNull_matches]; simp only [fb_cond]
+  have e91 := fb_eq (Jrpc.Json.firstByte b) 91 (by decide)
+  have e123 := fb_eq (Jrpc.Json.firstByte b) 123 (by decide)
+  apply decide_by_cases b Funcs.marshalParamsTail
+  · intro hn; simp [Funcs.marshalParamsTail, Jrpc.Tie.C02.isNull_matches, hn]
+  · intro hn hk
+    rcases hk with h | h <;> simp [Funcs.marshalParamsTail, Jrpc.Tie.C02.isNull_matches, hn, h]
+  · intro hn h1 h2
+    have a : (Jrpc.Json.firstByte b == 91) = false := by simpa using h1
+    have c : (Jrpc.Json.firstByte b == 123) = false := by simpa using h2
+    have p91 : ¬ (((Jrpc.Json.firstByte b).toNat : Int) = 91) := fun h => h1 ((fb_iff _ 91 (by decide)).mp h)
+    have p123 : ¬ (((Jrpc.Json.firstByte b).toNat : Int) = 123) := fun h => h2 ((fb_iff _ 123 (by decide)).mp h)
+    simp [Funcs.marshalParamsTail, Jrpc.Tie.C02.isNull_matches, hn, bne, e91, e123, a, c, p91, p123]
 
 /-- `Server.pushReq` applies the same policy to pushed notifications and callbacks -/
 theorem pushParams_tail (b : List UInt8) :
     Funcs.pushParamsTail b (fun x => ((Jrpc.Json.firstByte x).toNat : Int)) = Jrpc.Wire.outParams b := by
-  unfold Funcs.pushParamsTail Jrpc.Wire.outParams
-  rw [Jrpc.Tie.C02.isNull_matches]; simp only [fb_cond]
+  have e91 := fb_eq (Jrpc.Json.firstByte b) 91 (by decide)
+  have e123 := fb_eq (Jrpc.Json.firstByte b) 123 (by decide)
+  apply decide_by_cases b Funcs.pushParamsTail
+  · intro hn; simp [Funcs.pushParamsTail, Jrpc.Tie.C02.isNull_matches, hn]
+  · intro hn hk
+    rcases hk with h | h <;> simp [Funcs.pushParamsTail, Jrpc.Tie.C02.isNull_matches, hn, h]
+  · intro hn h1 h2
+    have a : (Jrpc.Json.firstByte b == 91) = false := by simpa using h1
+    have c : (Jrpc.Json.firstByte b == 123) = false := by simpa using h2
+    have p91 : ¬ (((Jrpc.Json.firstByte b).toNat : Int) = 91) := fun h => h1 ((fb_iff _ 91 (by decide)).mp h)
+    have p123 : ¬ (((Jrpc.Json.firstByte b).toNat : Int) = 123) := fun h => h2 ((fb_iff _ 123 (by decide)).mp h)
+    simp [Funcs.pushParamsTail, Jrpc.Tie.C02.isNull_matches, hn, bne, e91, e123, a, c, p91, p123]
 
 end Jrpc.Tie.C13
